@@ -1,5 +1,5 @@
 (* C13 - disconnect always releases the connection; a new connection starts clean. *)
-From LibFtp Require Import Bytes Decimal Reply Endpoint DataConn Client Client_Proofs.
+From LibFtp Require Import Bytes Decimal Reply Endpoint Ascii DataConn DataConn_Proofs Client Client_Proofs Login_Proofs Transfer_Proofs Transfer_More.
 Local Open Scope N_scope.
 
 (* non-graceful disconnect from ANY state (failed control or data handshake, dead peer, exception in the middle of
@@ -37,3 +37,14 @@ Theorem C13_graceful_is_quit : op_disconnect true =
       if b then CtlDisconnect after else after))).
 Proof. reflexivity. Qed.
 Print Assumptions C13_graceful_is_quit.
+
+(* a connection made by a disconnected client: the greeting is read and returned, the session is plain and in step with the new server, nothing buffered *)
+Theorem C13_connect_starts_in_step : forall w h p s srest g,
+  w_open w = false -> w_script w = s :: srest -> s_reachable s = true -> c_tls (w_cfg w) = false ->
+  r_now (s_greeting s) = [RReply g] -> r_close_after (s_greeting s) = false -> code g <> 421 -> code g <> 120 ->
+  exists w', step w (AConnect h p None) = (OReturn (RvReplies [g]), w') /\
+    insync w' (s_reactions s) /\ w_script w' = srest /\ w_ssl w' = false /\ w_cfg w' = w_cfg w /\
+    wire_events (skipn (length (w_trace w)) (w_trace w')) = [WReply g] /\
+    obs_events (skipn (length (w_trace w)) (w_trace w')) = told (w_obs w) (OConnected h p) ++ told (w_obs w) (OReply g).
+Proof. exact connect_plain. Qed.
+Print Assumptions C13_connect_starts_in_step.
